@@ -31,6 +31,11 @@ type c02Doer func(run *c02Run, opt c02ReqOpt) (resp *c02Resp, again func() *c02R
 
 const c02Patience = 10 * time.Second // when to stop waiting for a response and open the gate; never a verdict by itself
 
+// c02Hangs counts gated requests that were still unanswered after c02Patience;
+// once it is non-zero no further gated late scenarios are started (each would
+// cost another c02Patience).
+var c02Hangs int64
+
 type c02Pending struct {
 	ch    chan struct{}
 	resp  *c02Resp
@@ -78,16 +83,26 @@ func c02ScLate(c *c02Ctx, e *c02Env, do c02Doer, rt *c02Route, sc *c02Script) (o
 	run := e.newRun(rt, sc)
 	defer e.forget(run)
 	defer run.release()
+	if atomic.LoadInt64(&c02Hangs) > 0 {
+		c.m.Count("late_skipped_after_hang", 1)
+		return false, nil
+	}
 	p := c02Go(do, run, c02ReqOpt{})
 	if !p.wait(c02Patience) {
-		// still nothing although the handler sits behind ctx.Done(): open the gate and
-		// judge what finally arrives (the handler finished long after the deadline, so
-		// the timeout response is still the only legal one)
+		// still nothing: open the gate so that the client is not left hanging for ever.
+		// If the handler had seen ctx.Done() it finished long after the deadline and the
+		// timeout response stays the only legal one (judged below); if the deadline
+		// never fired at all this is a watchdog case: inconclusive.
+		atomic.AddInt64(&c02Hangs, 1)
 		c.m.Count("late_patience_expired", 1)
 		run.release()
 		if !p.wait(c02Watchdog) {
 			c.m.Inconclusive("%s: no response for %s within the watchdog", class, run.id)
 			return false, nil
+		}
+		if atomic.LoadInt32(&run.sawDone) == 0 {
+			c.m.Inconclusive("%s: route timeout %v of %s had not fired after %v (handler still waiting on ctx.Done()); client finally saw %s", class, rt.Timeout, run.id, c02Patience, p.resp.String())
+			return false, p.resp
 		}
 	}
 	resp = p.resp
